@@ -18,3 +18,39 @@ Proof.
   destruct (iss =? scope_key); cbn [negb andb]; [|reflexivity].
   destruct (has_empty_permissions upl); reflexivity.
 Qed.
+
+(* ---------- IssueUserJWT (v2/creds_utils.go) ----------
+   The user claims it builds are a value of its own (made by NewUserClaims, an untranslated function): every store into
+   them and SetScoped rebind that value through an unknown function, and Encode is an unknown function of the final
+   value.  So, whatever those functions are: the roles of account id and user key are tested first, in that order; then
+   the claims are made for the user key, scoped, given the expiry "clock plus duration" exactly when the duration is not
+   zero, the account as issuer account, the name (the user key when none is given), the user key as subject, the tags;
+   and the result is what Encode makes of exactly these claims. *)
+Section Issue.
+  Context {V : Type} (vnil : V) (new_user : list go_event -> string -> V) (is_acct is_user : string -> bool) (now_add : Z -> Z)
+    (enc : V -> list go_event -> string * option string) (set_scoped : V -> bool -> V) (set_exp : V -> Z -> V)
+    (set_issuer_account set_name set_subject : V -> string -> V) (set_tags : V -> list string -> V).
+  Definition issued_claims (account_id user_key name : string) (d : Z) (tags : list string) : V :=
+    let c := set_scoped (new_user [] user_key) true in
+    let c := if (d =? 0)%Z then c else set_exp c (now_add d) in
+    let c := set_issuer_account c account_id in
+    let c := set_name c (if (name =? "")%string then user_key else name) in
+    let c := set_subject c user_key in
+    set_tags c tags.
+  Lemma src_issue_user_jwt (account_id user_key name : string) (d : Z) (tags : list string) :
+    V2.IssueUserJWT V vnil new_user is_acct is_user now_add enc set_scoped set_exp set_issuer_account set_name set_subject set_tags
+      account_id user_key name d tags
+    = ([], if negb (is_acct account_id) then (""%string, Some "error"%string)
+           else if negb (is_user user_key) then (""%string, Some "error"%string)
+           else match snd (enc (issued_claims account_id user_key name d tags) []) with
+                | None => (fst (enc (issued_claims account_id user_key name d tags) []), None)
+                | Some _ => (""%string, Some "error"%string)
+                end).
+  Proof.
+    unfold V2.IssueUserJWT, issued_claims. cbv zeta.
+    destruct (is_acct account_id); cbn [negb]; [|reflexivity].
+    destruct (is_user user_key); cbn [negb]; [|reflexivity].
+    destruct (d =? 0)%Z; cbn [negb]; destruct (name =? ""); cbn [negb];
+      match goal with |- context [enc ?c []] => destruct (enc c []) as [tok [e|]] end; reflexivity.
+  Qed.
+End Issue.
